@@ -67,6 +67,8 @@ def import_rules(chk, tier, pid, rules, why, floor, only=None):
 # Clauses of one property that are necessary conditions of another (applied by vcheck after the property's own rules; C01 and C02 list
 # theirs in their modules). (source property, rules, reason, counted instances on the pinned tree, instance filter)
 IMPORTS = {
+    "C06": [("C07", {"sanitize-length", "length-provenance"}, "both readers derive the value length from the header in the same way", 36, None)],
+    "C13": [("C11", {"extend-truncate", "value-truncate"}, "Truncate and Push* delegate to PrimitiveValue::truncate / extend_*", 30, None)],
     "C09": [("C03", {"vr-header-form", "header-layout", "header-bytes-read"}, "the meta group is written and read with the Explicit VR Little Endian codec", 85,
              lambda i: "explicit_le" in i["fn"])],
     "C26": [("C25", {"pdu-tables", "item-framing", "chunk-length"}, "P-DATA PDUs and their PDV items are framed as the reader parses them", 117, None)],
@@ -81,6 +83,48 @@ IMPORTS = {
 def apply_imports(chk, tier, pid):
     for src, rules, why, counted, only in IMPORTS.get(pid, []):
         import_rules(chk, tier, src, rules, why, (counted * 9) // 10, only=only)
+
+
+def collector_preamble(chk, fx, rule):
+    """DicomCollector::read_preamble is the twin of FileDicomObject::detect_preamble + skip: Never reads nothing, Always takes 128 bytes,
+    Auto takes 128 bytes when DICM is at offset 128 (of at least 132 buffered bytes), nothing when DICM is at offset 0 (C09, C06)"""
+    chk.rule(rule, "DicomCollector::read_preamble: `== Never` returns before touching the reader; `== Always` read_exact([u8;128]); detection "
+                   "`len >= 132 && buf[128..132] == DICM` -> consume(128), `buf[0..4] == DICM` -> nothing consumed, otherwise read_exact([u8;128])")
+    hs = fx.find_hir("dicom_object", lambda p: p.startswith("dicom_object::collector::DicomCollector::<") and p.endswith("::read_preamble"))
+    if len(hs) != 1:
+        raise facts.MissingAnchor(f"DicomCollector::read_preamble: {len(hs)} candidates")
+    h = hs[0]
+    ifs = [x for x in H.walk(h["body"]) if H.kind(x) == "if"]
+
+    def ops(c):
+        return sorted(y[2] for y in H.walk(c) if H.kind(y) == "bin" and y[2] not in ("Add",))
+
+    def extents(c):
+        return [C.slice_extent(y)[1:] for y in H.walk(c) if H.kind(y) == "index"]
+
+    never = [x for x in ifs if "ReadPreamble::Never" in H.show(x[2], 6)]
+    always = [x for x in ifs if "ReadPreamble::Always" in H.show(x[2], 6)]
+    chk.expect(len(never) == 1 and ops(never[0][2]) == ["Eq"] and not any("reader" in H.show(y, 3) for y in H.walk(never[0][3]) if H.kind(y) == "mcall"),
+               rule, "read_preamble", "Never-reads-nothing", "`== Never` branch returns without a read", [H.show(x[2], 6) for x in never], loc=C.fn_loc(h))
+    ok = len(always) == 1 and ops(always[0][2]) == ["Eq"] and [C.array_len(y[3]) for y in H.walk(always[0][3]) if H.kind(y) == "repeat"] == [128] \
+        and any((c or "").endswith("Read::read_exact") for c, _ in H.calls(always[0][3]))
+    chk.expect(ok, rule, "read_preamble", "Always-takes-128", "read_exact(&mut [0; 128])", [H.show(x[2], 6) for x in always], loc=C.fn_loc(h))
+    at128 = [x for x in ifs if (128, 4) in extents(x[2])]
+    at0 = [x for x in ifs if extents(x[2]) == [(0, 4)]]
+    ok = len(at128) == 1 and ops(at128[0][2]) == ["And", "Eq", "Ge"] and "DICM" in H.show(at128[0][2], 8) \
+        and [H.int_lit(y[5][0]) for y in H.walk(at128[0][3]) if H.kind(y) == "mcall" and y[3] == "consume"] == [128]
+    if ok:
+        ge = [y for y in H.walk(at128[0][2]) if H.kind(y) == "bin" and y[2] == "Ge"][0]
+        from .budget import poly_of
+        need = poly_of(ge[4], {})
+        ok = need.is_const() and need.const_value() == 132
+    chk.expect(ok, rule, "read_preamble", "DICM@128-consumes-128", "len >= 132 && buf[128..132] == DICM -> consume(128)", [H.show(x[2], 8) for x in at128], loc=C.fn_loc(h))
+    ok = len(at0) == 1 and ops(at0[0][2]) == ["Eq"] and "DICM" in H.show(at0[0][2], 8) and not [y for y in H.walk(at0[0][3]) if H.kind(y) == "mcall" and y[3] in ("consume", "read_exact", "read")]
+    chk.expect(ok, rule, "read_preamble", "DICM@0-consumes-nothing", "buf[0..4] == DICM -> None, nothing consumed", [H.show(x[2], 8) for x in at0], loc=C.fn_loc(h))
+    if len(at0) == 1 and at0[0][4] is not None:
+        e = at0[0][4]
+        ok = [C.array_len(y[3]) for y in H.walk(e) if H.kind(y) == "repeat"] == [128] and any((c or "").endswith("Read::read_exact") for c, _ in H.calls(e))
+        chk.expect(ok, rule, "read_preamble", "undetected-takes-128", "read_exact(&mut [0; 128])", H.show(e, 4)[:120], loc=C.fn_loc(h))
 
 
 def text_values_as_stored(chk, fx, rule):
